@@ -22,7 +22,7 @@ import argparse, hashlib, importlib, json, os, random, re, shutil, subprocess, s
 ROOT = os.path.dirname(os.path.abspath(__file__))
 LEAN = os.path.join(ROOT, "lean")
 HARNESS = os.path.join(ROOT, "harness")
-REPO = os.environ.get("VERIF_REPO", "/repo")
+REPO = os.environ.get("VERIF_REPO", os.path.normpath(os.path.join(ROOT, "..", "repo")))
 OUT = os.path.join(ROOT, "out")
 EVID = os.path.join(ROOT, "evidence")
 DRIVER = os.path.join(LEAN, ".lake", "build", "bin", "model_driver")
@@ -93,6 +93,7 @@ def proof_stage(plug, tier, log):
     """Returns dict(ok, obligations, discharged, axioms, problems, ...)."""
     t0 = time.time()
     problems = []
+    gen_main()
     vals, missing = extract_consts.generate()
     for m in missing:
         if plug.ID in m["props"]:
@@ -142,10 +143,10 @@ def proof_stage(plug, tier, log):
         if hits:
             problems.append(f"forbidden token {hits[0]!r} in {os.path.relpath(f, LEAN)}")
     hashes = statement_hashes(plug.LEAN_PROPS, plug.THEOREMS)
-    lock_path = os.path.join(ROOT, "statements.lock")
+    lock_path = os.path.join(ROOT, "locks", plug.ID + ".json")
     lock = json.load(open(lock_path)) if os.path.exists(lock_path) else {}
     for t, h in hashes.items():
-        want = lock.get(plug.ID, {}).get(t)
+        want = lock.get(t)
         if h is None:
             problems.append(f"statement of {t} not found in {plug.LEAN_PROPS}")
         elif want is None:
@@ -517,17 +518,41 @@ def replay(path):
     return 1 if bad else 0
 
 
-def lock():
-    res = {}
-    for f in sorted(os.listdir(os.path.join(ROOT, "checks"))):
-        if re.fullmatch(r"c\d+\.py", f):
-            plug = load_plugin(f[:-3].upper())
-            res[plug.ID] = statement_hashes(plug.LEAN_PROPS, plug.THEOREMS)
-    json.dump(res, open(os.path.join(ROOT, "statements.lock"), "w"), indent=1, sort_keys=True)
-    print("locked", {k: len(v) for k, v in res.items()})
+def plugin_ids():
+    return sorted(f[:-3].upper() for f in os.listdir(os.path.join(ROOT, "checks")) if re.fullmatch(r"c\d+\.py", f))
+
+
+def lock(only=None):
+    os.makedirs(os.path.join(ROOT, "locks"), exist_ok=True)
+    for pid in plugin_ids():
+        if only and pid != only.upper():
+            continue
+        plug = load_plugin(pid)
+        h = statement_hashes(plug.LEAN_PROPS, plug.THEOREMS)
+        json.dump(h, open(os.path.join(ROOT, "locks", pid + ".json"), "w"), indent=1, sort_keys=True)
+        print("locked", pid, len(h))
+
+
+def gen_main():
+    """Regenerate lean/Driver/Main.lean from the driver modules present."""
+    d = os.path.join(LEAN, "Litep2pVerif", "Driver")
+    areas = sorted(f[:-5] for f in os.listdir(d) if re.fullmatch(r"C\d+\.lean", f))
+    lines = ["-- GENERATED by verif.py (gen_main) from Litep2pVerif/Driver/C*.lean — do not edit.",
+             "import Litep2pVerif.Driver.Loop"]
+    lines += [f"import Litep2pVerif.Driver.{a}" for a in areas]
+    lines += ["open Litep2pVerif.Driver", "", "def main (args : List String) : IO UInt32 := do",
+              "  let stdin ← IO.getStdin", "  let stdout ← IO.getStdout", "  match args with"]
+    for a in areas:
+        lines.append(f'  | ["{a.lower()}"] => loop {a}.init {a}.step stdin stdout {a}.init false; return 0')
+    lines += ['  | _ => IO.eprintln "usage: model_driver <area>"; return 2', ""]
+    text = "\n".join(lines)
+    path = os.path.join(LEAN, "Driver", "Main.lean")
+    if not os.path.exists(path) or open(path).read() != text:
+        open(path, "w").write(text)
 
 
 def setup():
+    gen_main()
     extract_consts.generate()
     rc, so, se = sh(["lake", "build"], cwd=LEAN, timeout=7200)
     sys.stdout.write(so[-3000:] + se[-3000:])
@@ -543,7 +568,8 @@ def main():
     ap = argparse.ArgumentParser()
     sub = ap.add_subparsers(dest="cmd", required=True)
     sub.add_parser("setup")
-    sub.add_parser("lock")
+    lk = sub.add_parser("lock")
+    lk.add_argument("pid", nargs="?")
     c = sub.add_parser("check")
     c.add_argument("pid")
     c.add_argument("--tier", default=os.environ.get("VERIF_TIER", "quick"))
@@ -554,7 +580,7 @@ def main():
     if a.cmd == "setup":
         sys.exit(setup())
     if a.cmd == "lock":
-        lock()
+        lock(a.pid)
         sys.exit(0)
     if a.cmd == "check":
         sys.exit(check(a.pid.upper(), a.tier, a.seed))
